@@ -335,6 +335,24 @@ def rule_shutdown_order(report, prog, res):
     g = [i for i in walk_no_nested(d.node) if isinstance(i, ast.If) and 'self.is_bound' in norm(i.test) and 'ESTABLISHED' in norm(i.test)]
     report.check(len(g) == 1, 'C09-R7', key(d.qname, 'graceful disconnect only while the socket is bound'), d.loc(),
                  'DataLinkConnection.close no longer skips the DISC handshake for an unbound socket')
+    # application-thread removal: the SAP socket list is the only index terminate() walks to wake blocked callers, so a socket
+    # leaves it (and the SAP leaves the table) only after its -- possibly blocking -- close() has returned
+    r = prog.func('nfc.llcp.llc.ServiceAccessPoint.remove_socket')
+    cfg = cfg_of(r)
+    sock = r.params[1] if len(r.params) > 1 else 'socket'
+    closes = [cfg_node_for(cfg, c) for c in walk_no_nested(r.node) if isinstance(c, ast.Call) and norm(c.func) == sock + '.close']
+    unlist = [x for x in walk_no_nested(r.node)
+              if (isinstance(x, ast.Call) and norm(x.func) in ('self.sock_list.remove', 'self.sock_list.pop', 'self.sock_list.clear'))
+              or (isinstance(x, ast.Assign) and norm(x.targets[0]).startswith('self.llc.sap[') and norm(x.value) == 'None')
+              or (isinstance(x, ast.Delete) and any(norm(t).startswith(('self.llc.sap[', 'self.sock_list')) for t in x.targets))]
+    if not closes or len(unlist) < 2:
+        raise AnalysisError('C09-R7: remove_socket: close / unlist statements not found')
+    for x in unlist:
+        tgt = cfg_node_for(cfg, x)
+        okk = tgt is not None and tgt not in cfg.reachable(cfg.entry, avoid_nodes=closes)
+        report.check(okk, 'C09-R7', key(r.qname, 'socket closed before it is taken off the table terminate() walks', head(x) if isinstance(x, ast.stmt) else x), r.loc(x),
+                     'remove_socket can unlist the socket (%s) before %s.close() has returned: a close() that waits for the peer is then '
+                     'invisible to terminate() and is never woken when the link ends' % (norm(x)[:50], sock))
 
 
 def rule_service_threads(report, prog, res):
@@ -428,6 +446,20 @@ for _fn in ('run_as_initiator', 'run_as_target'):
 L = 'nfc.llcp.llc'
 T = 'nfc.llcp.tco'
 MUTANTS = [
+    ('remove-socket-unlists-first', 'nfc.llcp.llc', """        socket.close()
+        with self.llc.lock:
+            try:
+                self.sock_list.remove(socket)
+            except ValueError:
+                pass
+""", """        with self.llc.lock:
+            try:
+                self.sock_list.remove(socket)
+            except ValueError:
+                pass
+        socket.close()
+        with self.llc.lock:
+""", 'C09-R7'),
     ('terminate-without-finally', L, [("""        try:
             if type(self.mac) == nfc.dep.Initiator:""", """        if True:
             if type(self.mac) == nfc.dep.Initiator:"""), ("""        finally:
